@@ -461,6 +461,40 @@ def h_keys(ctx: Any, lookup: str, k: int, ranks: str = '', suits: str = '') -> N
             ctx.cover('hand-rejected')
 
 
+FORM_SAMPLES = {
+    'StandardHighHand': ['AcKcQcJcTc', '2c2d2h3s3c', '7c5d4h3s2c'], 'StandardLowHand': ['AcKcQcJcTc', '7c5d4h3s2c'],
+    'ShortDeckHoldemHand': ['AcKcQcJcTc', 'Ac6d7h8s9c'], 'EightOrBetterLowHand': ['Ac2d3h4s5c', '8c7d6h5s4c'],
+    'RegularLowHand': ['Ac2d3h4s5c', 'KcKdKhKsQc'], 'GreekHoldemHand': ['AcKcQcJcTc'], 'OmahaHoldemHand': ['AcKcQcJcTc'],
+    'OmahaEightOrBetterLowHand': ['Ac2d3h4s5c'], 'BadugiHand': ['Ac2d3h4s', 'Kc', '2c3d'],
+    'StandardBadugiHand': ['Ac2d3h4s', 'Kc'], 'KuhnPokerHand': ['Ks', 'Js'],
+}
+
+
+def h_forms(ctx: Any) -> None:
+    """the same valid hand given as text, tuple, list, one-shot generator / iterator / map: one and the same hand."""
+    from harness import common as C
+    from pokerkit.utilities import Card
+    classes = _hand_classes()
+    names = sorted(n for n in classes if n in FORM_SAMPLES)
+    ctx.check(len(names) == len(classes), 'unknown-hand-class', lambda: f'{sorted(set(classes) - set(FORM_SAMPLES))}')
+    name = names[ctx.choice('class', len(names))]
+    samples = FORM_SAMPLES[name]
+    text = samples[ctx.choice('sample', len(samples))]
+    cards = tuple(Card.parse(text))
+    ref = classes[name](cards)
+    form = ctx.choice('form', 7)
+    arg = [lambda: text, lambda: list(cards), lambda: Card.parse(text), lambda: iter(cards), lambda: (c for c in cards),
+           lambda: map(lambda c: c, cards), lambda: reversed(cards[::-1])][form]()
+    try:
+        h = classes[name](arg)
+    except Exception as e:
+        C.reraise_control(e)
+        ctx.fail('valid-hand-rejected-in-another-form', f'{name}({text!r}) as form {form}: {type(e).__name__}: {e}')
+    ctx.check(h == ref and hash(h) == hash(ref) and h.cards == cards and h.entry == ref.entry, 'form-changes-the-hand',
+              lambda: f'{name}({text!r}) form {form}: {h!r} vs {ref!r}')
+    ctx.cover('form')
+
+
 BIG = {'StandardLookup': {'HIGH_CARD', 'ONE_PAIR'}, 'RegularLookup': {'HIGH_CARD', 'ONE_PAIR'}}
 
 
@@ -504,5 +538,6 @@ def jobs(tier: str, seed: int) -> list[dict]:
                         budget_s=280, must_cover=['key', 'nonrainbow']))
         out.append(dict(name=f'L3/{lk}/k4/ranks-A2/suits-cdh', fn='h_keys', params=dict(lookup=lk, k=4, ranks='A234', suits='cd'),
                         budget_s=280, must_cover=['nonrainbow']))
+    out.append(dict(name='L2/forms', fn='h_forms', traced=False, params={}, budget_s=120, must_cover=['form']))
     out.append(dict(name='L2/low-flags', kind='native', fn='low_flags', params={}, budget_s=30))
     return out
